@@ -5,6 +5,8 @@ import OnlVerif.Lemmas.ConserveSum
 
 variable {σ : Type}
 
+namespace Conserve
+
 /-- the put requests of resource `r` that have been granted (= triggered), in creation order -/
 def grantedPuts (s : KState ℚ σ) (r : ResId) : List EvId :=
   (List.range s.events.size).filter (fun e => decide ((s.ev e).kind = .put r) && s.triggered e)
@@ -205,3 +207,5 @@ theorem grantedGets_noReq (s : KState ℚ σ) (r : ResId) (h : ∀ e, isReq s e 
   by_cases hk : (s.ev a).kind = .get r
   · rw [hk] at this; cases this
   · simp [hk]
+
+end Conserve
